@@ -17,6 +17,12 @@ def run(ctx):
     import xarray as xr
     import wavespectra as ws
 
+    # the reading process's local time zone must not matter: each worker runs in one of four zones
+    import time as _time
+    zone = ["UTC", "Europe/Amsterdam", "Australia/Perth", "America/Los_Angeles"][ctx.shard % 4]
+    os.environ["TZ"] = zone
+    _time.tzset()
+    ctx.rec.ok("process_time_zone", zone)
     tmp = tempfile.mkdtemp(prefix="vf-c13-")
     try:
         for i, rng in ctx.cases("files", ctx.n(2600, 40000)):
